@@ -36,6 +36,10 @@ pub struct BatchCase {
     /// tracker stays in use (the library tolerates that and only logs a warning)
     #[serde(default)]
     pub abandon: Option<usize>,
+    /// the consumer thread of the first pipelined batch starts reading only after this many
+    /// milliseconds (a slow downstream stage): the next submission has to wait for it
+    #[serde(default)]
+    pub slow_consumer_ms: u16,
 }
 
 /// submits a batch and drops its result handle unread
@@ -269,7 +273,8 @@ pub fn check_batches(c: &BatchCase) -> CaseResult {
             installed_keep = installed;
         } else if pipeline {
             // submit without waiting for the results of this or of earlier pipelined batches
-            let p = tr.submit_batch(b).expect("batch tracker");
+            let delay = if pipelined == 0 { c.slow_consumer_ms as u64 } else { 0 };
+            let p = tr.submit_batch_delayed(b, delay).expect("batch tracker");
             pendings.push((bi, p));
             pipelined += 1;
             installed_keep = installed;
@@ -352,6 +357,7 @@ pub fn check_batches(c: &BatchCase) -> CaseResult {
         .label_if(achieved, "ordering_plan_achieved")
         .label_if(cut_calls > 0, "cut_at_fragile_call")
         .label_if(pipelined > 0, "pipelined_batches")
+        .label_if(pipelined > 0 && c.slow_consumer_ms > 0, "slow_consumer")
         .label_if(c.auto_waste.is_some() && pipelined > 0, "collection_during_pipelining")
         .label_if(c.abandon.is_some() && !abandoned_scenes.borrow().is_empty(), "result_abandoned_mid_history")
         .label_if(c.drop_mode == 1, "dropped_with_abandoned_result"))
@@ -401,7 +407,10 @@ pub fn batch_case(kind: Kind) -> impl Strategy<Value = BatchCase> {
                 batches.push(b);
                 drain_thread.push(dt);
             }
-            BatchCase { cfg: h.cfg, objs: h.objs, feat_dim: h.feat_dim, batches, drain_thread, choices, delays, controlled, drop_mode, auto_waste, abandon }
+            // one case in fifty has a consumer that takes 1.3 s to start reading (derived from the
+            // generated material so that the case stays a pure function of it)
+            let slow_consumer_ms = if (uniq as usize + choices.len() + batches.len()) % 50 == 7 { 1300 } else { 0 };
+            BatchCase { cfg: h.cfg, objs: h.objs, feat_dim: h.feat_dim, batches, drain_thread, choices, delays, controlled, drop_mode, auto_waste, abandon, slow_consumer_ms }
         })
 }
 
